@@ -104,7 +104,7 @@ META["C10"] = {
     "engine": "vworker",
     "design_ref": "DESIGN.md §3 C10, §2.4",
     "technique": "conservation monitors over a running proxy: continuous sign sampling of every breaker resource and *_active gauge, zero / socket-count equality at quiescent points (two equal samples 200 ms apart), and event-triggered threshold trip tests (max_requests, max_retries) with scripted upstreams holding exchanges open",
-    "text": "Exploration: a real in-process MOSN whose clusters count all four breaker resources; 3 (12) rounds of 240 mixed requests per run (success, 5xx + retry policy, per-try / global timeouts, upstream close / RST / half response, unknown / empty / dead clusters, abandoned requests; 8 concurrent clients x HTTP/1, bolt, HTTP/2). A side goroutine samples all books every 2 ms (any negative value is a violation); after each round the request-type books (breaker requests / pending / retries, downstream and upstream request_active) must be 0 and upstream connection_active must equal the sockets the scripted upstreams hold; after the peers closed everything connection books must be 0. Threshold tests per protocol: with max_requests=3 exactly 3 requests are held in flight at the upstream (event-triggered, not timed): the resource must read 3, request 4 must be refused, and a new request must be admitted after release; with max_retries=1 a second request's retry must be refused while one retry is in flight and admitted afterwards.",
+    "text": "Exploration: a real in-process MOSN whose clusters count all four breaker resources; 3 (thorough: 4, reduced from 12, see DESIGN 7.15) rounds of 240 (288) mixed requests per worker (success, 5xx + retry policy, per-try / global timeouts, upstream close / RST / half response, unknown / empty / dead clusters, abandoned requests; 8 concurrent clients x HTTP/1, bolt, HTTP/2). A side goroutine samples all books every 2 ms (any negative value is a violation); after each round the request-type books (breaker requests / pending / retries, downstream and upstream request_active) must be 0 and upstream connection_active must equal the sockets the scripted upstreams hold; after the peers closed everything connection books must be 0. Threshold tests per protocol: with max_requests=3 exactly 3 requests are held in flight at the upstream (event-triggered, not timed): the resource must read 3, request 4 must be refused, and a new request must be admitted after release; with max_retries=1 a second request's retry must be refused while one retry is in flight and admitted afterwards.",
     "note": "Every cluster has its own upstream servers because MOSN keys connection pools by host address (clusters sharing an address share pools and books by design). Deliberately unsynchronised statistics are read only at quiescence; the sampler judges sign only.",
 }
 
